@@ -283,9 +283,9 @@ def check(ctx):
     for fn, attr in (('_velocity', 'self._default_velocity'), ('_height', 'self._default_height'), ('_landing_height', 'self._default_landing_height')):
         f = P.method(fn)
         ps, _ = paths_of(f)
-        got = sorted((tuple(p.cond_texts(orig=True)), norm(p.returned())) for p in ps)
+        got = sorted((tuple(sorted(p.fact_keys())), norm(p.returned())) for p in ps)
         a = f.params[1]
-        ctx.inst('R7', f, 'default:' + fn, got == sorted([(('%s is self.DEFAULT' % a,), attr), (('not %s is self.DEFAULT' % a,), a)]), '%s falls back to %s only for DEFAULT; %s' % (fn, attr, got))
+        ctx.inst('R7', f, 'default:' + fn, got == sorted([((fact_key('%s is self.DEFAULT' % a, True),), attr), ((fact_key('%s is self.DEFAULT' % a, False),), a)]), '%s falls back to %s only for DEFAULT; %s' % (fn, attr, got))
 
     # ---- R8: the set-points the primitives are streamed through reach the firmware as commanded (shared with C08.R1) ----
     from .c08 import sender_layout_for
